@@ -273,6 +273,8 @@ pub fn big_formula_texts(names: &Names) -> Vec<String> {
         "3{x}: 3{y}: (@{x}: ~{y} & (!{z}: AX {z})) & (@{y}: (!{z}: AX {z}))".to_string(),
         "AF (!{x}: (AX (~{x} & AF {x})))".to_string(),
         format!("AG ((!{{x}}: AX (~{{x}} & AF {{x}})) | ~{v0}) & ({v1} EU (!{{y}}: AG EF {{y}}))"),
+        "EF (!{x}: AX {x})".to_string(),
+        format!("(~ {v0}) EU ((!{{x}}: AX {{x}}) | {v1})"),
     ]
 }
 
